@@ -175,7 +175,21 @@ impl<'t> Gen<'t> {
             "main.oal".to_owned()
         } else {
             let dir = if self.cfg.subdirs { self.t.pick(&["", "", "lib/", "lib/sub/", "other/"]) } else { "" };
-            format!("{dir}m{i}.oal")
+            // One module in four is named like a module in another directory (a relative `use`
+            // must be resolved against the importing module, not against the main program).
+            let twin = if self.cfg.subdirs && i >= 2 && self.t.chance(1, 4) {
+                let k = self.t.range(1, i - 1);
+                let stem = self.prog.modules[k].file.rsplit('/').next().unwrap().to_owned();
+                let path = format!("{dir}{stem}");
+                if self.prog.modules.iter().all(|m| m.file != path) {
+                    Some(path)
+                } else {
+                    None
+                }
+            } else {
+                None
+            };
+            twin.unwrap_or_else(|| format!("{dir}m{i}.oal"))
         };
         self.prog.modules.push(Module { file, stmts: Vec::new() });
         self.mod_decls.push(Vec::new());
